@@ -48,6 +48,9 @@ pub struct Cfg {
     pub seed: u16,
     /// the follower's second request at the tip runs into the reader's time-out instead of being answered by the next block
     pub idle_timeout: bool,
+    /// the aggregator's wiring: the bare `CardanoChainDataImporter` (no chunking, no pruning decorators)
+    #[serde(default)]
+    pub bare: bool,
 }
 
 #[derive(Debug, Clone, Serialize, Deserialize, PartialEq)]
@@ -116,11 +119,13 @@ fn cfg_strategy() -> impl Strategy<Value = Cfg> {
         16u8..=50,
         any::<u16>(),
         prop::bool::weighted(0.2),
+        prop::bool::weighted(0.3),
     )
-        .prop_map(|(max_per_poll, chunk, prune_keep, sp, first_no, first_slot, initial_blocks, seed, idle_timeout)| Cfg {
+        .prop_map(|(max_per_poll, chunk, prune_keep, sp, first_no, first_slot, initial_blocks, seed, idle_timeout, bare)| Cfg {
             max_per_poll,
             chunk,
-            prune_keep,
+            prune_keep: if bare { None } else { prune_keep },
+            bare,
             sp,
             first_no,
             first_slot,
@@ -298,6 +303,7 @@ impl Run {
             max_per_poll: cfg.max_per_poll.max(1) as usize,
             chunk: cfg.chunk.max(1) as u64,
             prune_keep: cfg.prune_keep.map(|k| k as u64),
+            bare: cfg.bare,
         };
         crate::sut::create_empty_db(&db).expect("create database");
         let sut = Sut::open(&db, node.clone(), &stack).expect("open database");
@@ -465,7 +471,7 @@ impl Run {
         let node = Node::shared(world);
         node.lock().unwrap().idle = Idle::NewBlock;
         // one scan, one batch, one chunk: the most trivial history (pruning as configured)
-        let stack = StackCfg { max_per_poll: 100_000, chunk: 1_000_000, prune_keep: self.stack.prune_keep };
+        let stack = StackCfg { max_per_poll: 100_000, chunk: 1_000_000, prune_keep: self.stack.prune_keep, bare: false };
         crate::sut::create_empty_db(&db).expect("create fresh database");
         let sut = Sut::open(&db, node, &stack).expect("open fresh database");
         sut.import(t).await.unwrap_or_else(|e| panic!("import of the plain canonical chain into a fresh database failed: {e:?}"));
@@ -642,7 +648,13 @@ impl Run {
             let (exp_roots, exp_legacy) = expected_roots(&chain_before, t);
             pre.roots.len() < exp_roots.len() || pre.legacy_roots.len() < exp_legacy.len()
         };
-        if pre_hi.is_some_and(|h| h >= t) && (pre_stale || roots_missing(t)) && *sel != TargetSel::Same {
+        // (the second finding is the chunking decorator's: the bare importer recomputes missing range roots, so with
+        // the aggregator's wiring nothing is steered and nothing is tolerated for that class)
+        let bare = self.stack.bare;
+        if bare {
+            self.labels.insert("stack:bare-importer".into());
+        }
+        if pre_hi.is_some_and(|h| h >= t) && (pre_stale || (roots_missing(t) && !bare)) && *sel != TargetSel::Same {
             // Steering around two confirmed findings (they are exercised by `TargetSel::Same` and witnessed separately):
             // the next target of the real callers lies above the stored data as soon as the chain has grown.
             let hi = pre_hi.unwrap();
@@ -664,8 +676,12 @@ impl Run {
             } else {
                 let (exp_roots, exp_legacy) = expected_roots(&chain_before, t);
                 if pre.roots.len() < exp_roots.len() || pre.legacy_roots.len() < exp_legacy.len() {
-                    self.labels.insert("trigger:import-skipped-with-missing-range-roots".into());
-                    self.skip_key = Some(KEY_SKIP_ROOTS);
+                    if bare {
+                        self.labels.insert("bare:import-with-missing-range-roots".into());
+                    } else {
+                        self.labels.insert("trigger:import-skipped-with-missing-range-roots".into());
+                        self.skip_key = Some(KEY_SKIP_ROOTS);
+                    }
                 }
             }
         }
@@ -857,7 +873,7 @@ pub fn run_case(case: &Case) -> Report {
 // ------------------------------------------------------------------------------------------------ witnesses
 
 fn wcfg(initial_blocks: u8, max_per_poll: u8) -> Cfg {
-    Cfg { max_per_poll, chunk: 1000, prune_keep: None, sp: 0, first_no: 1, first_slot: 1, initial_blocks, seed: 7, idle_timeout: false }
+    Cfg { max_per_poll, chunk: 1000, prune_keep: None, sp: 0, first_no: 1, first_slot: 1, initial_blocks, seed: 7, idle_timeout: false, bare: false }
 }
 
 fn wimport(sel: TargetSel, mid: Option<MidFork>, crash: Option<u8>) -> Op {
@@ -957,7 +973,9 @@ pub fn run(args: &Args) -> i32 {
         .require_label("restart-with-stale-resume-point")
         .require_label("crash-injected")
         .require_label("mid-import-fork")
-        .require_label("earlier-beacon-compared");
+        .require_label("earlier-beacon-compared")
+        .require_label("stack:bare-importer")
+        .require_label("bare:import-with-missing-range-roots");
     check.shrink_iters(400);
     let t = check.tier;
 
